@@ -263,23 +263,41 @@ def apply_op(mpc, secfxp, op, x, c):
         return r[0] + r[1]
     if op == 'ifswap_c0': return mpc.if_swap(x[0], [x[1], x[2]], [x[2], x[1]])[0][0]
     if op == 'ifswap_c1': return mpc.if_swap(x[0], x[1], x[2])[1]
-    if op == 'sum': return mpc.sum(list(x))
+    if op == 'sum':
+        a = [x[0], x[1]]
+        r = mpc.sum(a, start=x[2])             # the start value is part of the sum (also for its integrality)
+        _spoil(a, x[2])
+        return r
     if op == 'prod': return mpc.prod(list(x))
-    if op == 'inprod': return mpc.in_prod([x[0], x[2]], [x[1], x[3]])
+    if op == 'inprod':
+        a, b = [x[0], x[2]], [x[1], x[3]]
+        r = mpc.in_prod(a, b)
+        _spoil(a, x[1]); _spoil(b, x[0])
+        return r
     if op == 'scalar_mul':
-        r = mpc.scalar_mul(x[0], [x[1], x[2]])
+        a = [x[1], x[2]]
+        r = mpc.scalar_mul(x[0], a)
+        _spoil(a, x[0])
         return r[0] + r[1]
     if op == 'schur':
-        r = mpc.schur_prod([x[0], x[1]], [x[2], x[3]])
+        a, b = [x[0], x[1]], [x[2], x[3]]
+        r = mpc.schur_prod(a, b)
+        _spoil(a, x[3]); _spoil(b, x[0])
         return r[0] + r[1]
     if op == 'vadd':
-        r = mpc.vector_add([x[0], x[1]], [x[2], x[3]])
+        a, b = [x[0], x[1]], [x[2], x[3]]
+        r = mpc.vector_add(a, b)
+        _spoil(a, x[3]); _spoil(b, x[0])
         return r[0] + r[1]
     if op == 'vsub':
-        r = mpc.vector_sub([x[0], x[1]], [x[2], x[3]])
+        a, b = [x[0], x[1]], [x[2], x[3]]
+        r = mpc.vector_sub(a, b)
+        _spoil(a, x[3]); _spoil(b, x[0])
         return r[0] + r[1]
     if op == 'matprod':
-        r = mpc.matrix_prod([[x[0], x[1]]], [[x[2], x[3]], [x[3], x[2]]])
+        A, B = [[x[0], x[1]]], [[x[2], x[3]], [x[3], x[2]]]
+        r = mpc.matrix_prod(A, B)
+        _spoil(A, x[3]); _spoil(B, x[1])          # the caller overwrites entries inside the rows of its matrices right after the call
         return r[0][0] - r[0][1]
     if op == 'argmin_v': return mpc.argmin(list(x))[1]
     if op == 'argmax_v': return mpc.argmax(list(x))[1]
@@ -291,6 +309,15 @@ def apply_op(mpc, secfxp, op, x, c):
     if op == 'rsubc': return c - x[0]
     if op == 'int_of': return x[0]
     raise KeyError(op)
+
+
+def _spoil(L, v):
+    """the caller goes on using its own lists: every entry (also inside rows) is overwritten in place right after a call"""
+    for i in range(len(L)):
+        if isinstance(L[i], list):
+            _spoil(L[i], v)
+        else:
+            L[i] = v
 
 
 def build(spec, on_node=None, open_all=True):
